@@ -36,28 +36,41 @@ class Compiled:
         self.objs, self.module, self.code, self.options = objs, module, code, options
         self.ffi = module.ffi
         self.scalar = str(np.dtype(options.get("scalar_type", "float64")).name)
+        self.table_delta = 0.0
 
 
 def jit_forms(forms, options=None, extra_args=("-O1",), cache_dir=None, **kw) -> Compiled:
     import ffcx.codegeneration.jit as jit
 
+    from vf import monitors as M
+
     options = dict(options or {})
     cache_dir = cache_dir or scratch_dir("jit")
-    objs, module, code = jit.compile_forms(
-        list(forms), options=options, cache_dir=cache_dir, cffi_extra_compile_args=list(extra_args), **kw
-    )
-    return Compiled(objs, module, code, options)
+    # the perturbation ffcx's table clean-up (clamping, merging of tables equal within its tolerances) applied to table
+    # values during this compile is measured and travels with the compiled module: value comparisons allow for it
+    with M.table_delta() as td:
+        objs, module, code = jit.compile_forms(
+            list(forms), options=options, cache_dir=cache_dir, cffi_extra_compile_args=list(extra_args), **kw
+        )
+    comp = Compiled(objs, module, code, options)
+    comp.table_delta = float(td.delta)
+    return comp
 
 
 def jit_expressions(exprs, options=None, extra_args=("-O1",), cache_dir=None, **kw) -> Compiled:
     import ffcx.codegeneration.jit as jit
 
+    from vf import monitors as M
+
     options = dict(options or {})
     cache_dir = cache_dir or scratch_dir("jit")
-    objs, module, code = jit.compile_expressions(
-        list(exprs), options=options, cache_dir=cache_dir, cffi_extra_compile_args=list(extra_args), **kw
-    )
-    return Compiled(objs, module, code, options)
+    with M.table_delta() as td:
+        objs, module, code = jit.compile_expressions(
+            list(exprs), options=options, cache_dir=cache_dir, cffi_extra_compile_args=list(extra_args), **kw
+        )
+    comp = Compiled(objs, module, code, options)
+    comp.table_delta = float(td.delta)
+    return comp
 
 
 # ----------------------------------------------------------------------------- descriptors
@@ -241,11 +254,15 @@ def call_kernel(ffi, obj, scalar, A, w, c, x, ent=None, perm=None):
 
 
 # ----------------------------------------------------------------------------- comparison
-def compare(K, R, S, scalar, delta=0.0, ops=1.0):
+def compare(K, R, S, scalar, delta=0.0, ops=1.0, floor=0.0):
     """err = max|K-R| / max(S); returns (err, bound, status) with status in ok|bad|grey."""
     scale = float(np.max(S)) if S.size else 0.0
     if scale <= 0 or not np.isfinite(scale):
         scale = max(float(np.max(np.abs(R))) if R.size else 0.0, 1e-300)
+    # floor: tabulated basis values carry an ABSOLUTE error of about eps (their intermediate magnitudes are O(1)), so a
+    # reference whose terms all vanish (e.g. derivatives of piecewise constants, which ffcx drops exactly) is rounding noise
+    # of relative size O(1) against its own magnitude tensor; callers without a prefilled A pass floor ~ size of the data
+    scale = max(scale, floor)
     K = np.asarray(K).reshape(R.shape)
     if not np.all(np.isfinite(R)) or not np.all(np.isfinite(S)):
         return float("nan"), 0.0, "degenerate"
